@@ -185,6 +185,8 @@ func checkC05(r *Report) {
 	cacheKeyRule(r, p)
 	mapRangeRule(r, p, roots)
 	depOrderTotalRule(r, p, "C05.h/DEP-ORDER-TOTAL")
+	nCI := cacheIndexAgreesRule(r, p, "C05.i/CACHE-INDEX-AGREES")
+	r.floor("C05.i/CACHE-INDEX-AGREES", "index updates in the instantiations of the Add method of the resolver-lifetime LRU cache", nCI, 4)
 	r.Stats["functions_in_scope"] = len(p.Funcs)
 	r.Stats["functions_reachable_from_Resolve"] = len(reach)
 	r.Stats["summary_passes"] = e.passes
